@@ -71,7 +71,7 @@ Proof. induction l as [|b r IH]; [reflexivity|]. cbn. rewrite IH. reflexivity. Q
 
 (* C04: a valid checksummed frame altered (timestamp, payload, CRC field) by a burst of at most 32 bits
    (or any pattern burst32 covers) is never accepted *)
-Theorem C04_burst sec nsec ms e_ts e_pay e_crc :
+Lemma C04_reduce sec nsec ms e_ts e_pay e_crc :
   Forall wf_msg ms -> N.of_nat (length (enc_items ms)) < 65536 ->
   let payload := enc_items ms in
   let ts := le 8 (twos 64 sec) ++ le 4 (twos 32 nsec) in
@@ -79,13 +79,15 @@ Theorem C04_burst sec nsec ms e_ts e_pay e_crc :
   length e_ts = 12%nat -> length e_pay = length payload -> length e_crc = 4%nat ->
   bytes_ok e_ts -> bytes_ok e_pay -> bytes_ok e_crc ->
   let e_pre := repeat 0 4 ++ e_ts ++ repeat 0 2 ++ e_pay in
-  burst32 (e_pre ++ e_crc) ->
   forall padding, (32 <= length (pre ++ le 4 (crc32 pre) ++ padding))%nat ->
                   (length (pre ++ le 4 (crc32 pre) ++ padding) mod 32 = 0)%nat ->
   forall ms', decode_frame (xor_bytes (pre ++ le 4 (crc32 pre) ++ padding)
-                                      (e_pre ++ e_crc ++ repeat 0 (length padding))) <> Accept ms'.
+                                      (e_pre ++ e_crc ++ repeat 0 (length padding))) = Accept ms' ->
+  bytes_ok pre /\ bytes_ok e_pre /\ length e_pre = length pre /\
+  (N.of_nat (length pre) <= 65553) /\
+  N.lxor (crc32 pre) (val e_crc) = crc32 (xor_bytes pre e_pre).
 Proof.
-  intros Hwf Hsz payload ts pre Hl1 Hl2 Hl3 Hb1 Hb2 Hb3 e_pre Hburst padding Hlen Hmod ms' Hacc.
+  intros Hwf Hsz payload ts pre Hl1 Hl2 Hl3 Hb1 Hb2 Hb3 e_pre padding Hlen Hmod ms' Hacc.
   assert (Hbpay : bok payload) by (unfold payload; apply (bok_enc (S (length (enc_items ms)))); [lia|exact Hwf]).
   assert (Hbts : bok ts) by (unfold ts; apply bok_app; apply bok_le).
   assert (Hbpre : bok pre).
@@ -127,9 +129,10 @@ Proof.
   destruct (N.eqb_spec (unle (xor_bytes (le 4 (crc32 pre)) e_crc))
                        (crc32 (le 2 magic ++ le 2 (ctrl_word true) ++ xor_bytes ts e_ts ++
                                le 2 (N.of_nat (length (xor_bytes payload e_pay))) ++ xor_bytes payload e_pay))) as [E|]; [|discriminate].
-  apply (burst_never_accepted pre e_pre e_crc); try assumption.
+  split; [exact Hbpre|]. split; [|split; [exact Hlpre|split]].
   - assert (Z : forall n, bytes_ok (repeat 0 n)) by (intro n; apply Forall_forall; intros x Hx'; apply repeat_spec in Hx'; subst; reflexivity).
     unfold e_pre. apply Forall_app; split; [apply Z|]. apply Forall_app; split; [assumption|]. apply Forall_app; split; [apply Z|assumption].
+  - unfold pre, ts. rewrite !app_length, !le_length. unfold payload in *. rewrite !Nat2N.inj_add. cbn [N.of_nat Pos.of_succ_nat Pos.succ]. lia.
   - rewrite <- (val_eq_unle (xor_bytes _ _)) in E.
     destruct (val_xor (le 4 (crc32 pre)) e_crc) as [Hv _]; [apply bok_le|assumption|rewrite le_length; lia|].
     rewrite Hv in E. rewrite val_eq_unle, unle_le in E by (change (256 ^ N.of_nat 4) with W; apply crc32_bound; exact Hbpre).
@@ -146,4 +149,70 @@ Proof.
     reflexivity.
 Qed.
 
-Print Assumptions C04_burst.
+
+(* the shape of a valid checksummed frame and of an alteration that leaves magic, control word and length alone *)
+Section Altered.
+  Variables (sec nsec : Z) (ms : list message) (e_ts e_pay e_crc padding : list N).
+  Let payload := enc_items ms.
+  Let ts := le 8 (twos 64 sec) ++ le 4 (twos 32 nsec).
+  Let pre := le 2 magic ++ le 2 (ctrl_word true) ++ ts ++ le 2 (N.of_nat (length payload)) ++ payload.
+  Let e_pre := repeat 0 4 ++ e_ts ++ repeat 0 2 ++ e_pay.
+  Definition valid_frame : list N := pre ++ le 4 (crc32 pre) ++ padding.
+  Definition alteration : list N := e_pre ++ e_crc ++ repeat 0 (length padding).
+  Definition altered_bits : list N := e_pre ++ e_crc.
+  Definition alteration_ok : Prop :=
+    Forall wf_msg ms /\ N.of_nat (length (enc_items ms)) < 65536 /\
+    length e_ts = 12%nat /\ length e_pay = length payload /\ length e_crc = 4%nat /\
+    bytes_ok e_ts /\ bytes_ok e_pay /\ bytes_ok e_crc /\
+    (32 <= length valid_frame)%nat /\ (length valid_frame mod 32 = 0)%nat.
+
+  (* an alteration confined to 32 consecutive bits (LSB-first bit order, the order in which this CRC consumes them) *)
+  Theorem C04_burst : alteration_ok -> burst32 altered_bits ->
+    forall ms', decode_frame (xor_bytes valid_frame alteration) <> Accept ms'.
+  Proof.
+    intros (Hwf & Hsz & L1 & L2 & L3 & B1 & B2 & B3 & A1 & A2) Hb ms' Hacc.
+    destruct (C04_reduce sec nsec ms e_ts e_pay e_crc Hwf Hsz L1 L2 L3 B1 B2 B3 padding A1 A2 ms' Hacc) as (P1 & P2 & P3 & _ & P4).
+    revert P4. apply burst_never_accepted; assumption.
+  Qed.
+
+  (* one or two flipped bits anywhere in timestamp, payload or CRC field *)
+  Definition two_bits (e : list N) : Prop := exists i j, i < j /\ val e = N.lxor (2 ^ i) (2 ^ j).
+  Definition one_bit (e : list N) : Prop := exists i, val e = 2 ^ i.
+
+  Theorem C04_two_bits : alteration_ok -> two_bits altered_bits ->
+    forall ms', decode_frame (xor_bytes valid_frame alteration) <> Accept ms'.
+  Proof.
+    intros (Hwf & Hsz & L1 & L2 & L3 & B1 & B2 & B3 & A1 & A2) (i & j & Hij & Hv) ms' Hacc.
+    destruct (C04_reduce sec nsec ms e_ts e_pay e_crc Hwf Hsz L1 L2 L3 B1 B2 B3 padding A1 A2 ms' Hacc) as (P1 & P2 & P3 & P5 & P4).
+    pose proof (accept_forces_zero _ _ _ P1 P2 B3 P3 L3 P4) as Z0.
+    assert (Z1 : Tn (8 * N.of_nat (length pre) + 32) (N.lxor (2 ^ i) (2 ^ j)) = 0) by (rewrite <- Hv; exact Z0).
+    assert (P5' : N.of_nat (length pre) <= 65553) by exact P5.
+    assert (P3' : length e_pre = length pre) by exact P3.
+    assert (P2' : bytes_ok e_pre) by exact P2.
+    assert (Hv' : val (e_pre ++ e_crc) = N.lxor (2 ^ i) (2 ^ j)) by exact Hv.
+    clear Z0 P1 P2 P3 P4 P5 Hv.
+    revert Z1. apply two_bit_detected; [unfold max_bits; lia|exact Hij|].
+    (* 2^j <= val < 2^(8n+32) *)
+    assert (Hlt : val (e_pre ++ e_crc) < 256 ^ N.of_nat (length (e_pre ++ e_crc))).
+    { apply val_lt. apply Forall_app; split; assumption. }
+    rewrite app_length, P3', L3, Nat2N.inj_add, pow256 in Hlt. rewrite Hv' in Hlt.
+    destruct (N.lt_ge_cases j (8 * N.of_nat (length pre) + 32)) as [|Hge]; [assumption|exfalso].
+    assert (H2 : 2 ^ (8 * (N.of_nat (length pre) + N.of_nat 4)) <= 2 ^ j) by (apply N.pow_le_mono_r; lia).
+    assert (H3 : 2 ^ j <= N.lxor (2 ^ i) (2 ^ j)).
+    { assert (N.testbit (N.lxor (2 ^ i) (2 ^ j)) j = true).
+      { rewrite N.lxor_spec, N.pow2_bits_eqb, N.pow2_bits_eqb. replace (i =? j) with false by (symmetry; apply N.eqb_neq; lia).
+        rewrite N.eqb_refl. reflexivity. }
+      apply N.testbit_true in H.
+      destruct (N.lt_ge_cases (N.lxor (2 ^ i) (2 ^ j)) (2 ^ j)) as [Hc|]; [|assumption].
+      rewrite N.div_small in H by exact Hc. discriminate. }
+    lia.
+  Qed.
+
+  Theorem C04_one_bit : alteration_ok -> one_bit altered_bits ->
+    forall ms', decode_frame (xor_bytes valid_frame alteration) <> Accept ms'.
+  Proof.
+    intros Hok (i & Hv). apply C04_burst; [exact Hok|]. exists i, 1. rewrite Hv. unfold W. lia.
+  Qed.
+End Altered.
+
+Print Assumptions C04_burst. Print Assumptions C04_two_bits.
